@@ -12,7 +12,7 @@ const F = { TEXT: 1, CLASS: 2, STYLE: 4, PROPS: 8, FULL_PROPS: 16, HYDRATE_EVENT
 
 const ALPHABET = ['strPlain', 'valueless', 'num', 'objConst', 'identUnbound', 'call', 'member', 'classStr', 'classExpr', 'styleObj', 'styleExpr',
   'key', 'ref', 'onClick', 'onOther', 'onUpdate', 'onUpdateModel', 'namespaced', 'spreadIdent', 'spreadObjLit', 'onObj', 'nativeOnObj',
-  'dirCustom', 'dirShow', 'html', 'textc', 'model', 'modelComputed', 'undef', 'arrow', 'template', 'onClickConst', 'onOtherConst'];
+  'dirCustom', 'dirShow', 'html', 'textc', 'model', 'modelComputed', 'undef', 'arrow', 'template', 'onClickConst', 'onOtherConst', 'camelNsName', 'onVnodeHook'];
 
 function makeItem(b, rng, kind, st, hostInfo) {
   switch (kind) {
@@ -24,6 +24,9 @@ function makeItem(b, rng, kind, st, hostInfo) {
     // listeners with a constant value (nothing to update), possibly repeated by a dynamic one of the same name
     case 'onClickConst': return { ...A.attr('onClick', { k: 'leaf', i: b.leaf('null'), src: 'null' }), kind, dynamic: false };
     case 'onOtherConst': { const v = rng.pick(['undefined', 'null', '[]']); return { ...A.attr(rng.pick(['onMouseenter', 'onScroll', 'onTouchstart']), { k: 'leaf', i: b.leaf(v), src: v }), kind, dynamic: false }; }
+    // ordinary dynamic props whose names look special: camel-cased namespace attributes, vnode lifecycle hooks
+    case 'camelNsName': { const name = rng.pick(['xlinkHref', 'xmlLang', 'xlinkTitle', 'dataFoo', 'ariaLabel']); if (st.usedNames.has(name)) return null; st.usedNames.add(name); const g = b.global({ k: 'str', v: 'u' }); return { ...A.attr(name, { k: 'leaf', i: b.leaf(g), src: g }), kind, dynamic: true }; }
+    case 'onVnodeHook': { const name = rng.pick(['onVnodeMounted', 'onVnodeBeforeUnmount', 'onVnodeBeforeMount', 'onVnodeUpdated']); if (st.usedNames.has(name)) return null; st.usedNames.add(name); const g = b.global({ k: 'fn', id: 'hook' }); return { ...A.attr(name, { k: 'leaf', i: b.leaf(g), src: g }), kind, dynamic: true }; }
     case 'dirCustom': return { ...makeDirective(b, ['v-cust', 'cust'], [], null, 'expr', st.nameCounter++), kind };
     case 'dirShow': return { ...makeDirective(b, ['v-show', 'show'], [], null, 'expr', st.nameCounter++), kind };
     case 'html': case 'textc': {
